@@ -36,10 +36,13 @@ package slug
 
 //@ func (*Packer).packWalkFn$1 -> (err)
 //@   sweep
+//@   requires pre.captured: p != nil && meta != nil && tarW != nil
 
 //@ func (*Packer).resolveExternalLink -> (r, err)
 //@   sweep
+//@   replay packCycle:
 //@   requires pre.p: p != nil
+//@   ensures C19.result: err == nil ==> r != nil
 
 //@ func parseIgnoreFile -> (r)
 //@   sweep
